@@ -78,8 +78,8 @@ def gen_leaf_type(rng, model_only=True, allow_cust=True):
                 w = rng.random()
                 if w < 0.3:
                     leaf['cust'] = {'ge': a, 'le': b}
-                elif w < 0.5:
-                    leaf['cust'] = {'gt': a - 1, 'lt': b + 1}
+                elif w < 0.5 and (lo is None or a - 1 >= lo) and (hi is None or b + 1 <= hi):
+                    leaf['cust'] = {'gt': a - 1, 'lt': b + 1}      # XSD wants facet values inside the base type
                 elif w < 0.7:
                     leaf['cust'] = {'ge': a}
                 else:
@@ -301,14 +301,24 @@ def gen_service(rng, desc, n_methods=4, allow_headers=True, header_ns_tns=False,
 
 
 # ------------------------------------------------------------------ values
+def nil_ok(desc, ty):
+    """can None be written as an xsi:nil element of this type?  Not when the class has a required
+    attribute: XML Schema validates the attributes of a nilled element too."""
+    if ty[0] != 'ref':
+        return True
+    return not any(f['kind'] == 'attr' and f['min'] > 0 for f in flat_fields(desc, ty[1]))
+
+
 def gen_value(rng, desc, ty, depth, nullable=True):
     """a value conforming to ty under the published schema (None only where allowed by the caller)"""
-    if nullable and rng.random() < 0.15:
+    if nullable and nil_ok(desc, ty) and rng.random() < 0.15:
         return ('none',)
     if ty[0] == 'leaf':
         return gen_leaf_value(rng, ty[1])
     if ty[0] == 'arr':
         n = 0 if depth <= 0 else rng.choice([0, 1, 2, 3])
+        if not nil_ok(desc, ty[1]) and depth <= 1:
+            n = 0
         return ('list', [gen_value(rng, desc, ty[1], depth - 1, True) for _ in range(n)])
     cid = ty[1]
     return ('obj', cid, [gen_field_value(rng, desc, f, depth - 1) for f in flat_fields(desc, cid)])
@@ -320,10 +330,22 @@ def nonelike(v):
 
 def gen_field_value(rng, desc, f, depth):
     if f['kind'] in ('attr', 'data'):
-        if f['min'] <= 0 and rng.random() < 0.35:
+        # simple content whose base type has no empty literal cannot be absent under the published schema
+        must = f['kind'] == 'data' and f['ty'][1]['k'] not in ('text', 'bytes')
+        if f['min'] <= 0 and not must and rng.random() < 0.35:
             return ('none',)
         return gen_leaf_value(rng, f['ty'][1])
     shallow = depth <= 0 and f['ty'][0] == 'ref'
+    if not nil_ok(desc, f['ty']):
+        # None can only be an absent element here
+        if is_multi(f):
+            lo = max(f['min'], 0)
+            hi = 3 if f['max'] is None else f['max']
+            n = rng.randint(lo, max(lo, hi)) if not shallow else lo
+            return ('list', [gen_value(rng, desc, f['ty'], max(depth, 1), False) for _ in range(n)])
+        if f['min'] <= 0 and (shallow or rng.random() < 0.25):
+            return ('none',)
+        return gen_value(rng, desc, f['ty'], max(depth, 1), False)
     if is_multi(f):
         if f['min'] <= 0 and rng.random() < 0.2:
             return ('none',)
@@ -409,8 +431,6 @@ def build_classes(desc):
             ti.append((f['name'], member_type(f, ty_of)))
         base = ComplexModel if c['parent'] is None else out[c['parent']]
         out.append(ComplexModelMeta(str(c['name']), (base,), {'__namespace__': c['ns'], '_type_info': ti}))
-    out_ty = ty_of
-    build_classes.ty_of = ty_of
     return out
 
 
@@ -797,12 +817,6 @@ def build_app(desc, svc, prot_cls, validator, plan, classes=None, out_kwargs=Non
     return app, classes
 
 
-def method_types(desc, m):
-    """(request type, nillable), (response type, nillable) of the body elements, as in Call.req_ty / resp_ty;
-    message classes are described as pseudo classes ('msg', fields)"""
-    return None
-
-
 # ------------------------------------------------------------------ replay files
 def jsonable(o):
     """descriptions and neutral values -> JSON (tuples tagged, bytes / Decimal / float specials encoded)"""
@@ -835,3 +849,327 @@ def unjson(o):
             return float(o['__f'])
         return {k: unjson(v) for k, v in o.items()}
     return o
+
+
+# ------------------------------------------------------------------ independent schema-directed codec (oracle)
+import re, base64
+
+
+class DecodeError(Exception):
+    pass
+
+
+def _frac(us):
+    return ('.%06d' % us).rstrip('0') if us else ''
+
+
+def _off(off, rng=None):
+    if off is None:
+        return ''
+    if off == 0 and rng is not None and rng.random() < 0.5:
+        return 'Z'
+    a = abs(off)
+    return '%s%02d:%02d' % ('-' if off < 0 else '+', a // 60, a % 60)
+
+
+def ref_leaf_text(v, rng=None):
+    """canonical XSD literal of a neutral leaf value, written without Spyne; rng picks among the
+    equivalent literals the schema allows (boolean 1/0, dateTime Z, trimmed fraction digits)"""
+    k = v[0]
+    if k == 'int':
+        return str(v[1])
+    if k == 'text':
+        return v[1]
+    if k == 'bool':
+        if rng is not None and rng.random() < 0.3:
+            return '1' if v[1] else '0'
+        return 'true' if v[1] else 'false'
+    if k == 'bytes':
+        return base64.b64encode(v[1]).decode('ascii')
+    if k == 'date':
+        return '%04d-%02d-%02d' % v[1]
+    if k == 'time':
+        h, mi, s, us = v[1]
+        return '%02d:%02d:%02d%s' % (h, mi, s, _frac(us))
+    if k == 'datetime':
+        y, m, d, h, mi, s, us, off = v[1]
+        return '%04d-%02d-%02dT%02d:%02d:%02d%s%s' % (y, m, d, h, mi, s, _frac(us), _off(off, rng))
+    if k == 'dur':
+        n = v[1]
+        neg = n < 0
+        a = -n if neg else n
+        days, rem = divmod(a, 86400 * 10 ** 6)
+        secs, us = divmod(rem, 10 ** 6)
+        hh, r2 = divmod(secs, 3600)
+        mm, ss = divmod(r2, 60)
+        out = ('-' if neg else '') + 'P'
+        if days:
+            out += '%dD' % days
+        t = ''
+        if hh:
+            t += '%dH' % hh
+        if mm:
+            t += '%dM' % mm
+        if ss or us:
+            t += '%d%sS' % (ss, _frac(us))
+        if t:
+            out += 'T' + t
+        if out in ('P', '-P'):
+            out += 'T0S'
+        return out
+    if k == 'dec':
+        return format(v[1], 'f')
+    if k == 'dbl':
+        f = v[1]
+        if f != f:
+            return 'NaN'
+        if f in (float('inf'), float('-inf')):
+            return 'INF' if f > 0 else '-INF'
+        return repr(f)
+    if k == 'uuid':
+        return v[1]
+    raise ValueError(v)
+
+
+_WS = ' \t\n\r'
+_RE_DATE = re.compile(r'^(\d{4})-(\d\d)-(\d\d)(Z|[+-]\d\d:\d\d)?$')
+_RE_TIME = re.compile(r'^(\d\d):(\d\d):(\d\d)(\.\d+)?(Z|[+-]\d\d:\d\d)?$')
+_RE_DT = re.compile(r'^(\d{4})-(\d\d)-(\d\d)T(\d\d):(\d\d):(\d\d)(\.\d+)?(Z|[+-]\d\d:\d\d)?$')
+_RE_DUR = re.compile(r'^(-)?P(?:(\d+)Y)?(?:(\d+)M)?(?:(\d+)D)?(?:T(?:(\d+)H)?(?:(\d+)M)?(?:(\d+)(\.\d+)?S)?)?$')
+
+
+def _us(frac):
+    if not frac:
+        return 0
+    d = decimal.Decimal('0' + frac) * 10 ** 6
+    if d != int(d):
+        raise DecodeError('fraction finer than microseconds: %r' % frac)
+    return int(d)
+
+
+def _tz(s):
+    if s is None:
+        return None
+    if s == 'Z':
+        return 0
+    m = int(s[1:3]) * 60 + int(s[4:6])
+    return -m if s[0] == '-' else m
+
+
+def ref_parse_leaf(leaf, text):
+    """XSD literal -> neutral leaf value, without Spyne; DecodeError when the text is not a literal of the type"""
+    k = leaf['k']
+    t = text if text is not None else ''
+    if k == 'text':
+        return ('text', t)
+    t = t.strip(_WS)                                     # whiteSpace=collapse of every non-string type
+    try:
+        if k == 'int':
+            if not re.match(r'^[+-]?[0-9]+$', t):
+                raise DecodeError('not an xs:integer: %r' % text)
+            return ('int', int(t))
+        if k == 'bool':
+            if t in ('true', '1'):
+                return ('bool', True)
+            if t in ('false', '0'):
+                return ('bool', False)
+            raise DecodeError('not an xs:boolean: %r' % text)
+        if k == 'bytes':
+            return ('bytes', base64.b64decode(re.sub('[' + _WS + ']', '', t), validate=True))
+        if k == 'date':
+            m = _RE_DATE.match(t)
+            if not m:
+                raise DecodeError('not an xs:date: %r' % text)
+            return ('date', (int(m.group(1)), int(m.group(2)), int(m.group(3))))
+        if k == 'time':
+            m = _RE_TIME.match(t)
+            if not m or m.group(5):
+                raise DecodeError('not a (zone-less) xs:time: %r' % text)
+            return ('time', (int(m.group(1)), int(m.group(2)), int(m.group(3)), _us(m.group(4))))
+        if k == 'datetime':
+            m = _RE_DT.match(t)
+            if not m:
+                raise DecodeError('not an xs:dateTime: %r' % text)
+            return ('datetime', tuple(int(m.group(i)) for i in range(1, 7)) + (_us(m.group(7)), _tz(m.group(8))))
+        if k == 'dur':
+            m = _RE_DUR.match(t)
+            if not m or t in ('P', '-P') or t.endswith('T'):
+                raise DecodeError('not an xs:duration: %r' % text)
+            if m.group(2) or m.group(3):
+                raise DecodeError('duration with years/months: %r' % text)
+            n = ((int(m.group(4) or 0) * 24 + int(m.group(5) or 0)) * 60 + int(m.group(6) or 0)) * 60 + int(m.group(7) or 0)
+            n = n * 10 ** 6 + _us(m.group(8))
+            return ('dur', -n if m.group(1) else n)
+        if k == 'dec':
+            return ('dec', decimal.Decimal(t))
+        if k == 'dbl':
+            return ('dbl', {'INF': float('inf'), '-INF': float('-inf'), 'NaN': float('nan')}.get(t, None) if t in ('INF', '-INF', 'NaN') else float(t))
+        if k == 'uuid':
+            return ('uuid', str(uuid.UUID(t)))
+    except DecodeError:
+        raise
+    except Exception as e:
+        raise DecodeError('%s literal %r: %r' % (k, text, e))
+    raise ValueError(k)
+
+
+def array_member(T):
+    """(namespace, name, inner type object) of the single member of an Array class that exists"""
+    T = unwrap(T)
+    (mname, inner), = T._type_info.items()
+    return T.get_namespace(), mname, inner
+
+
+def _q(ns, name):
+    return '{%s}%s' % (ns, name) if ns else name
+
+
+def ref_encode(desc, classes, ty, T, ns, name, v, rng, tns):
+    """schema-directed XML of a conformant value: element {ns}name of declared type ty.
+    T is the Spyne type object at this position (array member names / namespaces are read from the
+    classes that exist, as a WSDL consumer would read them from the schema)."""
+    from lxml import etree
+    e = etree.Element(_q(ns, name))
+    if v[0] == 'none':
+        e.set('{%s}nil' % XSI, rng.choice(['true', 'true', '1']))
+        return e
+    if ty[0] == 'leaf':
+        e.text = ref_leaf_text(v, rng)
+        return e
+    if ty[0] == 'arr':
+        ans, mname, inner = array_member(T)
+        if ans is None:
+            ans = tns
+        for x in v[1]:
+            e.append(ref_encode(desc, classes, ty[1], inner, ans, mname, x, rng, tns))
+        return e
+    cid = v[1]
+    ref_encode_members(desc, classes, cid, e, v[2], rng, tns)
+    return e
+
+
+def declaring(desc, cid):
+    """[(declaring class id, field)] of the flattened members"""
+    c = desc['classes'][cid]
+    base = declaring(desc, c['parent']) if c['parent'] is not None else []
+    return base + [(cid, f) for f in c['fields']]
+
+
+def ref_encode_members(desc, classes, cid, e, vals, rng, tns, fields=None, ns_of=None, type_of=None):
+    for (dcid, f), x in zip(fields if fields is not None else declaring(desc, cid), vals):
+        fns = ns_of(dcid) if ns_of else desc['classes'][dcid]['ns']
+        T = type_of(dcid, f) if type_of else classes[dcid]._type_info[f['name']]
+        if f['kind'] == 'attr':
+            if x[0] != 'none':
+                e.set(f['name'], ref_leaf_text(x, rng))
+        elif f['kind'] == 'data':
+            if x[0] != 'none':
+                e.text = ref_leaf_text(x, rng)
+        elif is_multi(f):
+            if x[0] == 'list':
+                for y in x[1]:
+                    e.append(ref_encode(desc, classes, f['ty'], T, fns, f['name'], y, rng, tns))
+        else:
+            if x[0] == 'none':
+                if f['min'] <= 0 and (not f['nillable'] or not nil_ok(desc, f['ty']) or rng.random() < 0.6):
+                    continue                                   # absent optional element
+            e.append(ref_encode(desc, classes, f['ty'], T, fns, f['name'], x, rng, tns))
+
+
+def is_nil(e):
+    return e.get('{%s}nil' % XSI) in ('true', '1')
+
+
+def ref_decode(desc, classes, ty, T, e, tns):
+    """schema-directed reading of element e of declared type ty -> neutral value (DecodeError if the
+    element is not what the schema describes)"""
+    if is_nil(e):
+        if len(e) or (e.text or '').strip():
+            raise DecodeError('nil element with content')
+        return ('none',)
+    if ty[0] == 'leaf':
+        if len(e):
+            raise DecodeError('child elements inside a simple-typed element %s' % e.tag)
+        return ref_parse_leaf(ty[1], e.text)
+    if ty[0] == 'arr':
+        ans, mname, inner = array_member(T)
+        if ans is None:
+            ans = tns
+        out = []
+        for c in e:
+            if c.tag != _q(ans, mname):
+                raise DecodeError('array item %s, expected %s' % (c.tag, _q(ans, mname)))
+            out.append(ref_decode(desc, classes, ty[1], inner, c, tns))
+        return ('list', out)
+    cid = ty[1]
+    return ('obj', cid, ref_decode_members(desc, classes, cid, e, tns))
+
+
+def ref_decode_members(desc, classes, cid, e, tns, fields=None, ns_of=None, type_of=None):
+    kids = [c for c in e if isinstance(c.tag, str)]
+    pos = 0
+    vals = []
+    used_atts = set()
+    for dcid, f in (fields if fields is not None else declaring(desc, cid)):
+        fns = ns_of(dcid) if ns_of else desc['classes'][dcid]['ns']
+        T = type_of(dcid, f) if type_of else classes[dcid]._type_info[f['name']]
+        if f['kind'] == 'attr':
+            if f['name'] in e.attrib:
+                used_atts.add(f['name'])
+                vals.append(ref_parse_leaf(f['ty'][1], e.attrib[f['name']]))
+            else:
+                if f['min'] > 0:
+                    raise DecodeError('required attribute %s missing' % f['name'])
+                vals.append(('none',))
+        elif f['kind'] == 'data':
+            if kids:
+                raise DecodeError('child elements in simple content')
+            vals.append(ref_parse_leaf(f['ty'][1], e.text))
+        else:
+            items = []
+            while pos < len(kids) and kids[pos].tag == _q(fns, f['name']):
+                items.append(ref_decode(desc, classes, f['ty'], T, kids[pos], tns))
+                pos += 1
+            if len(items) < f['min']:
+                raise DecodeError('%d occurrences of %s, minOccurs=%d' % (len(items), f['name'], f['min']))
+            if f['max'] is not None and len(items) > f['max']:
+                raise DecodeError('%d occurrences of %s, maxOccurs=%d' % (len(items), f['name'], f['max']))
+            if is_multi(f):
+                vals.append(('list', items))
+            else:
+                vals.append(items[0] if items else ('none',))
+    if pos != len(kids):
+        raise DecodeError('unexpected element %s at position %d' % (kids[pos].tag, pos))
+    for k in e.attrib:
+        if k not in used_atts and not k.startswith('{'):
+            raise DecodeError('undeclared attribute %s' % k)
+    return vals
+
+
+def soap_envelope(prot, headers, body):
+    from lxml import etree
+    if prot == 'xml':
+        return body
+    ns = NS_SOAP11 if prot == 'soap11' else NS_SOAP12
+    env = etree.Element('{%s}Envelope' % ns)
+    if headers is not None:
+        h = etree.SubElement(env, '{%s}Header' % ns)
+        for x in headers:
+            h.append(x)
+    etree.SubElement(env, '{%s}Body' % ns).append(body)
+    return env
+
+
+def soap_open(prot, doc):
+    """(list of header elements or None, body element or None); DecodeError when doc is not an envelope"""
+    if prot == 'xml':
+        return None, doc
+    ns = NS_SOAP11 if prot == 'soap11' else NS_SOAP12
+    if doc.tag != '{%s}Envelope' % ns:
+        raise DecodeError('not a %s envelope: %s' % (prot, doc.tag))
+    hs = doc.findall('{%s}Header' % ns)
+    bs = doc.findall('{%s}Body' % ns)
+    if len(bs) != 1 or len(hs) > 1:
+        raise DecodeError('envelope with %d Body / %d Header' % (len(bs), len(hs)))
+    kids = [c for c in bs[0] if isinstance(c.tag, str)]
+    return (list(hs[0]) if hs else None), (kids[0] if kids else None)
